@@ -2,7 +2,7 @@
    recorded splitter node has exactly the edges its splits prescribe, every resolver node's
    failover targets were resolved, and therefore every target the entries make the compiler
    request (through routes, splits and failover) has a redirect walk that ends.  A redirect or
-   reference cycle reachable from the chain's service makes compile fail. *)
+   reference cycle reachable from the chain's service makes compile_ord fail. *)
 From Verif Require Import Base.Prelude.
 From Verif Require Import Chain.Model.
 From Verif Require Import Chain.Lemmas.
